@@ -71,6 +71,7 @@ def stepM (m : MState) (toks : List String) : MState × String :=
   | ["m.create", ns, name, val, rv] => memCreate m ns name val rv
   | ["m.update", ns, name, val, rv, newrv] => memUpdate m ns name val rv newrv
   | ["m.status", ns, name, val, rv, newrv] => memUpdate m ns name val rv newrv   -- `UpdateStatus`
+  | ["m.run"] => (m, "ok")   -- `Run` marks the static collections synced: no effect on contents or streams
   | ["m.delete", ns, name] => memDelete m ns name
   | ["m.get", ns, name] =>
     (m, "m.get " ++ match AMap.lookup m.objs (memKey ns name) with
@@ -115,7 +116,7 @@ def stepTop (t : TopState) (toks : List String) : TopState × String :=
       let r := stepJX {} toks
       ({ mode := 3, jx := r.1 }, r.2)
     else if stream.startsWith "exact" then
-      let r := stepX {} toks
+      let r := stepXL {} toks
       ({ mode := 2, x := r.1 }, r.2)
     else
       let r := stepAll {} toks
@@ -125,7 +126,7 @@ def stepTop (t : TopState) (toks : List String) : TopState × String :=
       let r := stepM t.m toks
       ({ t with m := r.1 }, r.2)
     else if t.mode == 2 then
-      let r := stepX t.x toks
+      let r := stepXL t.x toks
       ({ t with x := r.1 }, r.2)
     else if t.mode == 3 then
       let r := stepJX t.jx toks
